@@ -2,7 +2,6 @@ package jsonldinternal
 
 import (
 	"errors"
-	"net/url"
 	"strings"
 
 	"github.com/dpb587/rdfkit-go/iri"
@@ -52,9 +51,7 @@ func isIRI(processingMode string, v string) bool {
 		// url.Parse(RequestURI)? does not actually error on an unencoded space
 		// there is probably a better way to validate?
 
-		if strings.Contains(v, " ") {
-			return false
-		} else if _, err := url.ParseRequestURI(v); err != nil {
+		if strings.Contains(v, " ") || !hasIRIScheme(vSplit[0]) {
 			return false
 		}
 	}
